@@ -1,7 +1,7 @@
 (* C04 — SML print -> parse round trip (partial: the literal level is proved,
    the token and character levels are decided by correspondence and monitors). *)
 From Secs Require Import Ast FloatProofs Fill Msg WireSpec WireLemmas WireValues HeaderProofs WireEnc WireDec MsgProofs AstProofs FillProofs FillCompose.
-From Secs Require Import PrintProofs Lexer Parser SmlNumbers SmlProofs LexProofs ParseProofs OffsetProofs TokenProofs LexPrinted.
+From Secs Require Import PrintProofs Lexer Parser SmlNumbers SmlProofs LexProofs ParseProofs OffsetProofs TokenProofs LexPrinted MsgRoundTrip.
 Open Scope Z_scope.
 
 (* integers are printed in decimal (FormatInt); scanning the printed form gives the value back *)
@@ -42,7 +42,7 @@ Theorem C04_leaf_tokens : forall floats k w xs st rab rest,
   (forall n, In n (slot_vars xs) -> known_name st n = false) ->
   toks st = map (slot_token k) xs ++ rab :: rest -> t_typ rab = TRAB ->
   exists st', parse_numeric floats (nk_of k w) st = (IOk (ILeaf k w xs), st') /\
-              toks st' = rab :: rest /\ errs st' = errs st /\ warns st' = warns st /\ names_char st st' (slot_vars xs).
+              toks st' = rab :: rest /\ errs st' = errs st /\ warns st' = warns st /\ msgs st' = msgs st /\ names_char st st' (slot_vars xs).
 Proof. exact leaf_parses_back. Qed.
 Print Assumptions C04_leaf_tokens.
 
@@ -55,7 +55,7 @@ Theorem C04_leaf_item : forall floats rec_list k w xs st rest,
   (forall n, In n (slot_vars xs) -> known_name st n = false) ->
   toks st = leaf_tokens k w xs ++ rest ->
   exists st', parse_item_body floats rec_list st = (Some (ILeaf k w xs), st') /\
-              toks st' = rest /\ errs st' = errs st /\ warns st' = warns st /\ names_char st st' (slot_vars xs).
+              toks st' = rest /\ errs st' = errs st /\ warns st' = warns st /\ msgs st' = msgs st /\ names_char st st' (slot_vars xs).
 Proof. exact leaf_item_parses_back. Qed.
 Print Assumptions C04_leaf_item.
 
@@ -67,7 +67,7 @@ Theorem C04_item_tokens : forall floats t st rest,
   printable t -> (forall n, In n (vars t) -> known_name st n = false) ->
   toks st = item_tokens t ++ rest ->
   exists st', parse_item floats (S (length (toks st))) st = (Some t, st') /\ toks st' = rest /\
-              errs st' = errs st /\ warns st' = warns st /\ names_char st st' (vars t).
+              errs st' = errs st /\ warns st' = warns st /\ msgs st' = msgs st /\ names_char st st' (vars t).
 Proof. exact item_parses_back. Qed.
 Print Assumptions C04_item_tokens.
 
@@ -91,9 +91,23 @@ Example C04_premises :
   printable t /\ lexable t.
 Proof. destruct print_lex_parse_example as (H1 & H2 & _). split; assumption. Qed.
 
-(* C04_print_parse (remaining): the message header line, float items (their
-   text is an oracle), ASCII items and ellipses at the token and character
-   levels, and the converse direction (fixed point of accepted texts) are not
-   proved; they are decided on the library by the monitors of suite C04 (print
+(* END TO END: sml.Parse of the printed form of any sequence of messages — any
+   stream/function code, wait bit, direction, a name the header lexer reads as
+   one name, an item tree as above or none — returns exactly those messages,
+   no error, no warning: printer, lexer and parser models composed, for every
+   size, nesting and value *)
+Theorem C04_print_parse : forall alnum floats fl ms, Forall (msg_good alnum) ms ->
+  let r := sml_parse alnum floats (msgs_text fl ms) in
+  r_msgs r = ms /\ r_errs r = [] /\ r_warns r = [] /\ r_crashed r = false.
+Proof. exact print_parse_messages. Qed.
+Print Assumptions C04_print_parse.
+
+(* the text is what the message printer prints: one message per entry, a line feed after each *)
+Theorem C04_text : forall fl ms, msgs_text fl ms = flat_map (fun m => render fl (msg_print m) ++ [x0a]) ms.
+Proof. reflexivity. Qed.
+
+(* C04_remaining: float items (their text is an oracle), ASCII items and
+   ellipses at the token and character levels, and the converse direction (fixed
+   point of every accepted text) are not proved; they are decided on the library by the monitors of suite C04 (print
    -> parse -> compare, and the fixed point of every accepted text) and by the
    correspondence of printer, lexer and parser with the model. *)
